@@ -35,6 +35,8 @@ inductive Val where
   | frozenset (xs : List Val)
   | state (cls : Nat) (fields : List (String × Val))
   | alwaysEq (id : Nat)                -- look-alike: object whose `__eq__` always answers True
+  | pretender (id : Nat)               -- look-alike: object of another type that reports `Missing`
+                                       -- as its `__class__` (so `isinstance(x, Missing)` is True)
 deriving Repr, Inhabited
 
 /-- `Missing()` -/
@@ -63,6 +65,7 @@ def deepcopy : Val → Val
   | .frozenset xs => .frozenset (deepcopyList xs)
   | .state c fs => .state c (deepcopyFields fs)
   | .alwaysEq id => .alwaysEq id
+  | .pretender id => .pretender id
 def deepcopyList : List Val → List Val
   | [] => []
   | x :: xs => deepcopy x :: deepcopyList xs
@@ -129,6 +132,7 @@ def truthy : Val → Bool
   | .frozenset xs => !xs.isEmpty
   | .state _ _ => true
   | .alwaysEq _ => true
+  | .pretender _ => true
 
 /-- `MISSING == v`: `Missing.__eq__(MISSING, v)` is tried first (no operand here is an instance of a
 subclass of `Missing`, the class is final) and answers `v is MISSING` -/
@@ -160,6 +164,17 @@ def setAttr : Val → String → Val → Option (Except AttrErr Unit)
 def delAttr : Val → String → Option (Except AttrErr Unit)
   | .missing _, _ => some (.error .attributeError)
   | _, _ => Option.none
+
+/-- `object.__setattr__(v, name, x)`, i.e. bypassing `Missing.__setattr__`: an instance has no
+storage at all (`__slots__ = ()`: no `__dict__`, no slot), so this fails too -/
+def rawSetAttr : Val → String → Val → Option (Except AttrErr Unit)
+  | .missing _, _, _ => some (.error .attributeError)
+  | _, _, _ => Option.none
+
+/-- `vars(v)` / `v.__dict__`: there is no instance dictionary -/
+def varsOf : Val → Option (Except AttrErr (List (String × Val)))
+  | .missing _ => some (.error .attributeError)
+  | _ => Option.none
 
 mutual
 /-- every instance of `Missing` in the tree is the singleton -/
